@@ -1,11 +1,14 @@
 /-
   Props/C14.lean — concurrent use: mutual exclusion, deadlock freedom under the lock discipline.
   (Linearizability of the registry is decided by the Spec `linearizableB` on real histories; the
-  atomic-action machine it is stated over is `lApply` in Spec/Linearize.lean.)
+  atomic-action machine it is stated over is `lApply` in Spec/Linearize.lean.  That *every*
+  interleaving of calls whose effects happen at atomic points inside the call is linearizable is
+  `C14.atomic_points_linearizable`.)
 -/
 import SchedVerif.Model.Conc.Locks
 import SchedVerif.Spec.Linearize
 import SchedVerif.Lemmas.Linearize
+import SchedVerif.Lemmas.AtomicPoints
 namespace SV
 open SV.L2
 
@@ -578,6 +581,55 @@ theorem C14.registered_not_lost (tags : List (Nat × List Nat)) (init final : Li
         obtain ⟨r, s', hr, ha, hrep'⟩ := hrep
         exact ih s' (lApply_keeps tags s s' r.op ha k hk (hkeep r (List.mem_of_getElem? hr))) hrep'
   exact key ord _ hk hrep
+
+/-! ### every interleaving of atomic points is linearizable -/
+
+/-- **all interleavings**: take any global trace of invocations, atomic points and returns in which
+    every record of the history comes from exactly one atomic point lying between the invocation and
+    the return of its call (`Generated`; `exec_jobs` has several points: choosing the batch, then one
+    per job it ran), and in which every point computes its result from the registry the previous
+    point left behind (`Replay` along the trace - this is what holding the registry lock for the whole
+    point gives, `C14.mutex`).  Then the history is linearizable, whatever the interleaving, the
+    number of threads or of calls: the order of the atomic points is a witness. -/
+theorem C14.atomic_points_linearizable (tags : List (Nat × List Nat)) (init final : List Nat)
+    (rs : List LRec) (tr : List Ev) (hg : Generated rs tr)
+    (hrun : Replay tags final rs { reg := sortKeys init, selected := [] } (ptOrder tr)) :
+    Linearizable tags init final rs :=
+  ⟨ptOrder tr, hg.perm, ptOrder_respectsRT rs tr hg, hrun⟩
+
+/-- and is therefore accepted by the search the driver runs on the observed histories -/
+theorem C14.atomic_points_accepted (tags : List (Nat × List Nat)) (init final : List Nat)
+    (rs : List LRec) (tr : List Ev) (hg : Generated rs tr)
+    (hrun : Replay tags final rs { reg := sortKeys init, selected := [] } (ptOrder tr)) :
+    linearizableB tags init final rs = true := by
+  rw [C14.linearizableB_iff]
+  · exact C14.atomic_points_linearizable tags init final rs tr hg hrun
+  · intro r hr
+    obtain ⟨i, hi, rfl⟩ := List.getElem_of_mem hr
+    have hmem : i ∈ ptOrder tr := hg.perm.mem_iff.mpr (List.mem_range.mpr hi)
+    obtain ⟨⟨p, i'⟩, hp, rfl⟩ := List.mem_map.mp hmem
+    obtain ⟨_, c, hc⟩ := ptPos_mem tr 0 p i' hp
+    simp only [Nat.sub_zero] at hc
+    obtain ⟨r', a, b, hr', ha, hb, _, _, hia, hib⟩ := hg.inside p c i' hc
+    have : rs[i'] = r' := by
+      have := List.getElem?_eq_getElem hi
+      rw [this] at hr'; exact Option.some.inj hr'
+    rw [this]; omega
+
+/-! non-vacuity: thread A deletes job 0 while thread B reads the job list; B's point comes second -/
+example : Generated
+    [{ op := .del 0 true, inv := 0, res := 5 }, { op := .jobs [1], inv := 1, res := 4 }]
+    [.inv 0, .inv 1, .pt 0 0, .pt 1 1, .ret 1, .ret 0] := by
+  refine ⟨by decide, ?_⟩
+  intro p c i h
+  match p, h with
+  | 2, h => cases h; exact ⟨_, 0, 5, rfl, by omega, by omega, rfl, rfl, rfl, rfl⟩
+  | 3, h => cases h; exact ⟨_, 1, 4, rfl, by omega, by omega, rfl, rfl, rfl, rfl⟩
+  | 0, h => cases h
+  | 1, h => cases h
+  | 4, h => cases h
+  | 5, h => cases h
+  | n+6, h => simp at h
 
 /-! non-vacuity: two overlapping calls, `delete_job(0)` succeeded and `jobs` returned `[1]`; the
     history is linearizable (delete first), hence accepted by the search -/
